@@ -153,14 +153,20 @@ theorem build_eq (b : DataItemBuilder F) :
         else .err .DataItemInvalid
       | _, _, _, _, _ => .err .DataItemIncomplete := by
   obtain ⟨o, h, l, c, v⟩ := b
-  cases o <;> cases h <;> cases l <;> cases c <;> cases v <;> rfl
+  -- shape-independent: unfold, normalise the monadic glue and decide every test the code makes
+  cases o <;> cases h <;> cases l <;> cases c <;> cases v <;>
+    first
+    | rfl
+    | (simp only [DataItemBuilder.build, gen_helper, bind, Res.bind, pure, Bool.not_eq_true', Bool.not_eq_eq_eq_not,
+        Bool.not_true, Bool.not_false] <;> (repeat' split) <;> simp_all)
 
 /-- all five fields set: the outcome is decided by `valid` -/
 theorem build_complete (o h l c v : F) :
     (DataItemBuilder.build { open_ := some o, high := some h, low := some l, close := some c,
                              volume := some v } : Res (DataItem F)) =
       if valid o h l c v then .ok { open_ := o, high := h, low := l, close := c, volume := v }
-      else .err .DataItemInvalid := rfl
+      else .err .DataItemInvalid := by
+  rw [build_eq]; rfl
 
 /-- `Err(DataItemIncomplete)` iff some field was never set -/
 theorem build_incomplete_iff (b : DataItemBuilder F) :
